@@ -67,7 +67,16 @@ func (d *Driver) EstablishPeriodicSubscription(
 	match := patterns.subscriptionID.FindSubmatch(r.RawResult)
 	subID, _ := strconv.Atoi(string(match[1]))
 
-	d.subscriptions[subID] = make([][]byte, 0)
+	// the read loop files notifications under the same lock, possibly before we get here (the
+	// reply we just got carries the subscription id too): don't race with it and keep what it
+	// already stored
+	d.subscriptionsLock.Lock()
+
+	if _, ok := d.subscriptions[subID]; !ok {
+		d.subscriptions[subID] = make([][]byte, 0)
+	}
+
+	d.subscriptionsLock.Unlock()
 
 	r.SubscriptionID = subID
 
